@@ -52,6 +52,11 @@ def build_cases(ctx):
                 api = "sendf"
             cases.append({"n": n, "op": op, "fin": fin, "keymode": keymode, "key": key, "ptype": ptype,
                           "trace": trace, "seed": seed, "api": api, "acc": None})
+    # every opcode through send(payload, opcode) itself (opcode 0 = continuation and 8 = close included: "the requested opcode")
+    for n in (0, 1, 5, 125):
+        for op in OPC:
+            cases.append({"n": n, "op": op, "fin": 1, "keymode": "script", "key": bytes([0x31 + op, 0x41, 0x51, 0x61]), "ptype": bytes,
+                          "trace": bool(n % 2), "seed": n + op, "api": "send", "acc": None})
     # short-write patterns on a few sizes (the return value and the bytes must not depend on them)
     for n in (0, 1, 5, 125, 126, 200, 65536):
         for acc in ([1], [2, 1], [7], [3, 1000], [100000]):
